@@ -185,10 +185,15 @@ fn kinds_for(prop: &str) -> (&'static str, GenOpts) {
 pub fn n_random(prop: &str, tier: u8) -> usize {
     match (prop, tier) {
         ("C10", 0) => 600,
-        ("C10", _) => 20_000,
+        ("C10", _) => 8_000,
         ("C06", 0) => 1500,
-        ("C06", _) => 40_000,
+        ("C06", _) => 15_000,
         (_, 0) => 2500,
+        // measured: channel / rwlock heavy families cost 20-50x more per program at the thorough sizes
+        ("C09", _) => 12_000,
+        ("C07", _) => 15_000,
+        ("C01", _) => 25_000,
+        ("C04", _) => 40_000,
         (_, _) => 80_000,
     }
 }
